@@ -808,12 +808,140 @@ class _Lower:
         st = {"s": "assign", "p": {"l": v, "p": []}, "rv": {"r": "use", "o": {"m": p}}, "sp": sp, "lowered": True}
         return st, {"m": {"l": v, "p": []}}
 
+    def lower_fold(self, i):
+        """`it.fold(init, f)`, `it.try_fold(init, f)`, `it.for_each(f)` written out as the loop they are:
+              acc = init; loop { match it.next() { Some(v) => acc = f(acc, v) [? stop on None/Err], None => break } }
+        (the definition of these adapters; the closure body is spliced in)."""
+        c = self.c
+        t = c["blocks"][i]["term"]
+        n = (t.get("f") or {}).get("n")
+        kind = n.rsplit("::", 1)[-1]
+        args, dest, cont, sp, unwind = t["args"], t["dest"], t["to"], t.get("sp"), t.get("unwind")
+        ga = (t.get("f") or {}).get("a") or []
+        if dest["p"] or not ga:
+            return False
+        want = {"fold": 3, "try_fold": 3, "for_each": 2}[kind]
+        if len(args) != want:
+            return False
+        keep = (len(c["locals"]), len(c["blocks"]), copy.deepcopy(c["blocks"][i]), len(self.used_closures))
+        try:
+            fn = self.fn_of(args[-1])
+            if fn is None or fn[0] != "closure":
+                raise _NoLower()
+            iter_ty = ga[0]
+            OPT_ANY = {"k": "adt", "n": OPT, "a": [{"k": "infer"}]}
+            pre = []
+            if kind == "try_fold":
+                # receiver is `&mut iter`
+                rcv = _bare_local(args[0])
+                if rcv is None:
+                    raise _NoLower()
+                it_ref = lambda: {"m": {"l": self._reborrow(pre_h, rcv, sp), "p": []}}
+            else:
+                it = self.new_local(iter_ty)
+                pre.append({"s": "assign", "p": {"l": it, "p": []}, "rv": {"r": "use", "o": copy.deepcopy(args[0])}, "sp": sp, "lowered": True})
+                it_ref = None
+            acc = None
+            if kind != "for_each":
+                acc = self.new_local(ga[1] if len(ga) > 1 else None)
+                pre.append({"s": "assign", "p": {"l": acc, "p": []}, "rv": {"r": "use", "o": copy.deepcopy(args[1])}, "sp": sp, "lowered": True})
+            nloc = self.new_local(OPT_ANY)
+            pre_h = []
+            if kind == "try_fold":
+                ro = it_ref()
+            else:
+                r2 = self.new_local({"k": "ref", "m": True, "t": copy.deepcopy(iter_ty)})
+                pre_h.append({"s": "assign", "p": {"l": r2, "p": []}, "rv": {"r": "ref", "mut": True, "fake": False, "p": {"l": it, "p": []}},
+                              "sp": sp, "lowered": True})
+                ro = {"m": {"l": r2, "p": []}}
+            H = self.new_block(pre_h, {"t": "call", "f": {"n": "core::iter::traits::iterator::Iterator::next", "a": [copy.deepcopy(iter_ty)]},
+                                       "args": [ro], "dest": {"l": nloc, "p": []}, "to": None, "unwind": unwind, "sp": sp, "fn_sp": sp,
+                                       "lowered": n})
+            dl = self.new_local({"k": "prim", "n": "isize"})
+            dead = self.new_block([], {"t": "unreachable", "sp": sp})
+            S = self.new_block([{"s": "assign", "p": {"l": dl, "p": []}, "rv": {"r": "discr", "p": {"l": nloc, "p": []}, "of": copy.deepcopy(OPT_ANY)},
+                                 "sp": sp, "lowered": True}],
+                               {"t": "switch", "d": {"m": {"l": dl, "p": []}}, "dty": {"k": "prim", "n": "isize"}, "targets": [[0, None], [1, None]],
+                                "else": dead, "sp": sp, "lowered": n})
+            c["blocks"][H]["term"]["to"] = S
+            v = self.new_local(None)
+            take = {"s": "assign", "p": {"l": v, "p": []},
+                    "rv": {"r": "use", "o": {"m": {"l": nloc, "p": [{"dc": 1, "n": "Some"}, {"f": 0, "n": "0", "ty": {"k": "infer"}}]}}}, "sp": sp,
+                    "lowered": True}
+            # ---- exit: the iterator is exhausted
+            if kind == "fold":
+                E = self.new_block([{"s": "assign", "p": copy.deepcopy(dest), "rv": {"r": "use", "o": {"m": {"l": acc, "p": []}}}, "sp": sp,
+                                     "lowered": True}], {"t": "goto", "to": cont, "sp": sp})
+            elif kind == "for_each":
+                E = self.new_block([{"s": "assign", "p": copy.deepcopy(dest), "rv": {"r": "agg", "kind": "tuple", "ops": []}, "sp": sp,
+                                     "lowered": True}], {"t": "goto", "to": cont, "sp": sp})
+            else:
+                rty = ga[3] if len(ga) > 3 else c["locals"][dest["l"]].get("ty")
+                radt = rty.get("n") if isinstance(rty, dict) else None
+                if radt not in (OPT, RES):
+                    raise _NoLower()
+                okv = 1 if radt == OPT else 0
+                E = self.new_block([self.agg(dest, radt, okv, [{"m": {"l": acc, "p": []}}], sp)], {"t": "goto", "to": cont, "sp": sp})
+            # ---- body
+            if kind == "fold":
+                call = self.emit_call(fn, [{"m": {"l": acc, "p": []}}, {"m": {"l": v, "p": []}}], acc, H, sp, unwind)
+                Bd = self.new_block([take], {"t": "goto", "to": call, "sp": sp})
+            elif kind == "for_each":
+                tmp = self.new_local(None)
+                call = self.emit_call(fn, [{"m": {"l": v, "p": []}}], tmp, H, sp, unwind)
+                Bd = self.new_block([take], {"t": "goto", "to": call, "sp": sp})
+            else:
+                res = self.new_local(rty)
+                d2 = self.new_local({"k": "prim", "n": "isize"})
+                dead2 = self.new_block([], {"t": "unreachable", "sp": sp})
+                contv = 1 if radt == OPT else 0           # Some / Ok: go on with the new accumulator
+                stopv = 1 - contv
+                go_on = self.new_block([{"s": "assign", "p": {"l": acc, "p": []},
+                                         "rv": {"r": "use", "o": {"m": {"l": res, "p": [{"dc": contv, "n": VNAMES[radt][contv]},
+                                                                                          {"f": 0, "n": "0", "ty": {"k": "infer"}}]}}},
+                                         "sp": sp, "lowered": True}], {"t": "goto", "to": H, "sp": sp})
+                if radt == OPT:
+                    stop = self.new_block([self.agg(dest, OPT, 0, [], sp)], {"t": "goto", "to": cont, "sp": sp})
+                else:
+                    ev = self.new_local(None)
+                    stop = self.new_block([{"s": "assign", "p": {"l": ev, "p": []},
+                                            "rv": {"r": "use", "o": {"m": {"l": res, "p": [{"dc": 1, "n": "Err"}, {"f": 0, "n": "0", "ty": {"k": "infer"}}]}}},
+                                            "sp": sp, "lowered": True},
+                                           self.agg(dest, RES, 1, [{"m": {"l": ev, "p": []}}], sp)], {"t": "goto", "to": cont, "sp": sp})
+                K = self.new_block([{"s": "assign", "p": {"l": d2, "p": []}, "rv": {"r": "discr", "p": {"l": res, "p": []}, "of": copy.deepcopy(rty)},
+                                     "sp": sp, "lowered": True}],
+                                   {"t": "switch", "d": {"m": {"l": d2, "p": []}}, "dty": {"k": "prim", "n": "isize"},
+                                    "targets": [[contv, go_on], [stopv, stop]] if contv < stopv else [[stopv, stop], [contv, go_on]],
+                                    "else": dead2, "sp": sp, "lowered": n})
+                call = self.emit_call(fn, [{"m": {"l": acc, "p": []}}, {"m": {"l": v, "p": []}}], res, K, sp, unwind)
+                Bd = self.new_block([take], {"t": "goto", "to": call, "sp": sp})
+            c["blocks"][S]["term"]["targets"] = [[0, E], [1, Bd]]
+            blk = c["blocks"][i]
+            blk["stmts"].extend(pre)
+            blk["term"] = {"t": "goto", "to": H, "sp": sp, "lowered": n}
+            return True
+        except _NoLower:
+            del c["locals"][keep[0]:]
+            del c["blocks"][keep[1]:]
+            del self.used_closures[keep[3]:]
+            c["blocks"][i] = keep[2]
+            return False
+
+    def _reborrow(self, stmts, ref_local, sp):
+        r = self.new_local(self.c["locals"][ref_local].get("ty"))
+        stmts.append({"s": "assign", "p": {"l": r, "p": []}, "rv": {"r": "ref", "mut": True, "fake": False, "p": {"l": ref_local, "p": ["deref"]}},
+                      "sp": sp, "lowered": True})
+        return r
+
     def lower_at(self, i):
         c = self.c
         t = c["blocks"][i]["term"]
         if t["t"] != "call" or t.get("to") is None:
             return False
         n = (t.get("f") or {}).get("n")
+        if n in ("core::iter::traits::iterator::Iterator::fold", "core::iter::traits::iterator::Iterator::try_fold",
+                 "core::iter::traits::iterator::Iterator::for_each"):
+            return self.lower_fold(i)
         spec = COMBINATORS.get(n)
         if spec is None or not t["args"]:
             return False
